@@ -7,13 +7,15 @@ Subject: `beStep` / `beLoop` / `beSolve` of `Micm/Model/BackwardEuler.lean`.  Vo
 * `beCompletes … r : Bool`       the iteration from `r` ends an outer iteration (accept or reject);
 * `beOuterCount … N r`           number of outer iterations completed by the first `N` iterations;
 * `beInit h Y sc`, `beInitialH`  the state in which `beSolve` enters the loop; the first `H`
-                                 (`h_start == 0 ? time_step : h_start`, **not** clipped to `time_step`);
+                                 (`h_start == 0 ? time_step : min(h_start, time_step)`);
 * `BECountInv`, `BECtlInv p`, `BETimeInv T`  the loop invariants (fields spelled out in the theorems).
 
-Finding recorded here (`C06_be_overshoot`): with `h_start > time_step` the first outer iteration
-integrates over `h_start`, so `final_time = h_start > time_step` — that is how the source is written
-(`H` is clipped by `min(H, time_step − t)` only at the *end* of an outer iteration).  All time bounds
-below therefore assume `h_start ≤ time_step`.
+Repaired defect recorded here (`C06_be_old_overshoot`): the source used to start with
+`H = h_start == 0 ? time_step : h_start`, *not* clipped to `time_step` (`H` was clipped by
+`min(H, time_step − t)` only at the *end* of an outer iteration).  With `h_start > time_step` the first
+outer iteration then integrated over `h_start`, and the solve reported `Converged` with
+`final_time = h_start > time_step`.  `beSolveOld` below is a copy of `beSolve` with that first step; the
+current source and model clip the first step, and the time bounds below need only `0 ≤ h_start`.
 -/
 import Micm.Lemmas.BackwardEuler
 
@@ -145,25 +147,21 @@ variable {o : Ops K} (ho : OrderedOps o) (s : SolverCfg K) (p : BEParams K) (kc 
 
 include ho in
 /-- **time, along the loop** (ordered field, comparisons as in `OrderedOps`).  Hypotheses:
-    `0 < time_step`, `0 ≤ h_start ≤ time_step`, every reduction factor `≥ 0` (nothing else about the
-    factors is needed: the clip `H = min(H, time_step − t)` does the rest).  Then in every loop state
+    `0 < time_step`, `0 ≤ h_start` (no upper bound: the first `H` is `min(h_start, time_step)`), every
+    reduction factor `≥ 0` (nothing else about the factors is needed: the clip
+    `H = min(H, time_step − t)` does the rest).  Then in every loop state
     `rₖ` reached from the initial state of `beSolve` through not-`done` states:
     `0 ≤ t ≤ time_step`, `0 ≤ H`, and while the loop is running `H ≤ time_step − t`
     (so an accepted outer iteration never steps past `time_step`). -/
-theorem C06_be_time_iterates (hT : 0 < T) (hs0 : 0 ≤ p.hstart) (hsT : p.hstart ≤ T)
+theorem C06_be_time_iterates (hT : 0 < T) (hs0 : 0 ≤ p.hstart)
     (hred : ∀ x ∈ p.reductions, 0 ≤ x) (Y : Mat K) (sc : Scratch K) (k : Nat)
     (hk : ∀ j, j < k →
       ((beStep o s p kc atol rtol T)^[j] (beInit (beInitialH o p T) Y sc)).done = false) :
     let r := (beStep o s p kc atol rtol T)^[k] (beInit (beInitialH o p T) Y sc)
     0 ≤ r.t ∧ r.t ≤ T ∧ 0 ≤ r.h ∧ (r.done = false → r.h ≤ T - r.t) := by
   have hinit : BETimeInv T (beInit (beInitialH o p T) Y sc) := by
-    apply BETimeInv_init T hT
-    · rw [beInitialH_eq ho]; split
-      · exact le_of_lt hT
-      · exact hs0
-    · rw [beInitialH_eq ho]; split
-      · exact le_refl _
-      · exact hsT
+    obtain ⟨b0, bT⟩ := beInitialH_bounds ho p T hT hs0
+    exact BETimeInv_init T hT _ b0 bT Y sc
   have : BETimeInv T ((beStep o s p kc atol rtol T)^[k] (beInit (beInitialH o p T) Y sc)) := by
     induction k with
     | zero => exact hinit
@@ -177,7 +175,7 @@ include ho in
     `Converged`, `AcceptingUnconvergedIntegration` or (model only) `outOfFuel`; and
     `Converged ⇒ final_time = time_step` exactly — whereas `AcceptingUnconvergedIntegration` may stop
     earlier (`BEEx` example below: `final_time = 1/8`). -/
-theorem C06_be_time (hT : 0 < T) (hs0 : 0 ≤ p.hstart) (hsT : p.hstart ≤ T)
+theorem C06_be_time (hT : 0 < T) (hs0 : 0 ≤ p.hstart)
     (hred : ∀ x ∈ p.reductions, 0 ≤ x) (Y : Mat K) (sc : Scratch K) (fuel : Nat) :
     let res := beSolve o s p kc atol rtol T Y sc fuel
     0 ≤ res.finalTime ∧ res.finalTime ≤ T ∧
@@ -186,13 +184,8 @@ theorem C06_be_time (hT : 0 < T) (hs0 : 0 ≤ p.hstart) (hsT : p.hstart ≤ T)
       res.status = .outOfFuel) := by
   intro res
   have hinit : BETimeInv T (beInit (beInitialH o p T) Y sc) := by
-    apply BETimeInv_init T hT
-    · rw [beInitialH_eq ho]; split
-      · exact le_of_lt hT
-      · exact hs0
-    · rw [beInitialH_eq ho]; split
-      · exact le_refl _
-      · exact hsT
+    obtain ⟨b0, bT⟩ := beInitialH_bounds ho p T hT hs0
+    exact BETimeInv_init T hT _ b0 bT Y sc
   obtain ⟨h1, h2, _, h4, h5⟩ := beLoop_time ho s p kc atol rtol T hred fuel _ hinit
   exact ⟨h1, h2, h4, h5⟩
 
@@ -220,7 +213,7 @@ end Ordered
 namespace BEEx
 
 /-- the hypotheses of `C06_be_time` hold for the default parameters and `time_step = 1` … -/
-example : (0 : ℚ) < 1 ∧ 0 ≤ params.hstart ∧ params.hstart ≤ 1 ∧ ∀ x ∈ params.reductions, (0 : ℚ) ≤ x := by
+example : (0 : ℚ) < 1 ∧ 0 ≤ params.hstart ∧ ∀ x ∈ params.reductions, (0 : ℚ) ≤ x := by
   decide +kernel
 
 /-- … also with `h_start = 1/4`: three accepted outer iterations `H = ¼, ¼, ½` (doubling after two
@@ -243,13 +236,50 @@ example :
     res.Y = #[#[8/9, 1/9]] ∧ res.sc.ynew = #[#[1, 0]] := by
   decide +kernel
 
-/-- **overshoot**: `h_start = 2 > time_step = 1` violates only `h_start ≤ time_step`; the first outer
-    iteration integrates over `H = 2`, the solve reports `Converged` with `final_time = 2 > time_step`
-    and the backward-Euler value for `H = 2`, `y = 1/(1+2)` -/
-theorem C06_be_overshoot :
+/-- `h_start = 2 > time_step = 1` (allowed by `C06_be_time`): the first `H` is clipped to
+    `min(2, 1) = 1`, the solve reports `Converged` with `final_time = time_step = 1` and the
+    backward-Euler value for `H = 1`, `y = 1/(1+1)` -/
+example :
     (run .doolittle { params with hstart := 2 } 1 10).status = .converged ∧
-    (run .doolittle { params with hstart := 2 } 1 10).finalTime = 2 ∧
-    (run .doolittle { params with hstart := 2 } 1 10).Y = #[#[1/3, 2/3]] := by
+    (run .doolittle { params with hstart := 2 } 1 10).finalTime = 1 ∧
+    (run .doolittle { params with hstart := 2 } 1 10).trace.map (·.h) = [1, 1] ∧
+    (run .doolittle { params with hstart := 2 } 1 10).Y = #[#[1/2, 1/2]] := by
+  decide +kernel
+
+/-! #### the repaired defect: the first step of the OLD source was not clipped -/
+
+/-- copy of `beSolve` with the first step of the source *before* the repair,
+    `H = h_start == 0 ? time_step : h_start` (everything else identical) -/
+def beSolveOld {α : Type} [OfNat α 0] [OfNat α 1] [OfNat α 2] [Add α] [Sub α] [Mul α] [Div α]
+    (o : Ops α) (s : SolverCfg α) (p : BEParams α) (kc : Mat α) (atol : Array α) (rtol : α)
+    (timeStep : α) (Y : Mat α) (sc : Scratch α) (fuel : Nat) : SolveResult α :=
+  let h := if o.eq p.hstart 0 then timeStep else p.hstart
+  let r := beLoop o s p kc atol rtol timeStep fuel (beInit h Y sc)
+  { status := r.status, finalTime := r.t, stats := r.stats, Y := r.Yn1, sc := { r.sc with ynew := r.Yn },
+    trace := r.trace.reverse.map fun it =>
+      { h := it.h, alpha := 1 / it.h, matrix := it.matrix, error := 0, accepted := true } }
+
+/-- the copy differs from `beSolve` in the first step only: they agree whenever the clip is inactive
+    (`h_start = 0`, or `h_start ≤ time_step`) -/
+theorem beSolveOld_eq_beSolve {K : Type} [Field K] [LinearOrder K] [IsStrictOrderedRing K]
+    {o : Ops K} (ho : OrderedOps o) (s : SolverCfg K) (p : BEParams K) (kc : Mat K) (atol : Array K)
+    (rtol T : K) (Y : Mat K) (sc : Scratch K) (fuel : Nat) (h : p.hstart = 0 ∨ p.hstart ≤ T) :
+    beSolveOld o s p kc atol rtol T Y sc fuel = beSolve o s p kc atol rtol T Y sc fuel := by
+  have e : (if o.eq p.hstart 0 then T else p.hstart) = beInitialH o p T := by
+    rw [beInitialH_eq ho, ho.eq]
+    simp only [decide_eq_true_eq]
+    split
+    · rfl
+    · rw [min_eq_left (h.resolve_left ‹_›)]
+  rw [beSolve_eq]; unfold beSolveOld; rw [e]
+
+/-- **overshoot of the old source** (repaired): with `h_start = 2 > time_step = 1` the first outer
+    iteration integrated over `H = 2`; the solve reported `Converged` with `final_time = 2 > time_step`
+    and the backward-Euler value for `H = 2`, `y = 1/(1+2)` -/
+theorem C06_be_old_overshoot :
+    let res := beSolveOld ratOps (cfg .doolittle) { params with hstart := 2 } #[#[1]] #[1/10, 1/10] (1/10)
+      1 #[#[1, 0]] (scratch .doolittle) 10
+    res.status = .converged ∧ res.finalTime = 2 ∧ res.Y = #[#[1/3, 2/3]] := by
   decide +kernel
 
 end BEEx
@@ -264,6 +294,7 @@ end BEEx
 #print axioms C06_be_time_iterates
 #print axioms C06_be_time
 #print axioms C06_be_time_lower
-#print axioms BEEx.C06_be_overshoot
+#print axioms BEEx.beSolveOld_eq_beSolve
+#print axioms BEEx.C06_be_old_overshoot
 
 end Micm
